@@ -36,6 +36,7 @@ from ..astutil import text, short, endswith, calls_in, walk_no_nested, names_loa
 from ..dataflow import DefUse
 from .. import events as E
 from .. import types as T
+from ._h_A import canonicalise
 from ._h_A import (FactReach, Facts, nodes_of_stmts, nodes_for, kwarg, is_const, stmts_in,
                    attr_sites, obj_sites, MUTATING, inliner, expander, returns_of, bind_call,
                    call_arg, strip_wrappers, real_loops, Owners, atom_of, followed, enclosing_loops,
@@ -62,6 +63,7 @@ STEP = "engine.Engine._recompute_step"
 
 
 def check(run, repo, tier):
+  canonicalise(repo)
   w = World(repo)
   r1_codec(run, w)
   r2_forward_replay(run, w)
